@@ -12,7 +12,8 @@ THEOREMS = ['Core.c02_calls_exactly_requested', 'Core.c02_slot', 'Core.c02_coord
 ANCHORS = ['casesWrapBare']
 RULE = ("1-4 case arguments, 1-8 distinct cases (dict spelling through combo_runner(cases=...), tuple spelling through "
         "case_runner), optional sub-grid on 0-2 further arguments, result kinds scalar num/bool/str, tuples (incl. str/bool "
-        "components), nested lists, Dataset; shuffle / executors; flat or nested, split; plus a stream of requests with an "
+        "components), nested lists and numpy arrays of float / int / bool / str entries (1-d to 3-d, alone or as tuple "
+        "components), Dataset; shuffle / executors; flat or nested, split; plus a stream of requests with an "
         "argument in both cases and combos (must be rejected before any call); non-trivial = at least one slot of the "
         "output grid was not requested, or >= 2 cases; distinct by full case")
 TRUSTED = ["unsortable (mixed-type) coordinate order is not modelled (generators keep one type per argument)"]
@@ -21,6 +22,22 @@ ASSUMPTIONS = ["all cases of one request have the same keys (the property's quan
 KINDS = sweeps.KINDS_BASIC + [{'tuple': [[[], 'str'], [[], 'num'], [[], 'bool']]}, sweeps.KIND_DS, {'ds': [['u', [2], 'num']]},
                                {'arr': [[1, 2], 'num']},        # a nested list whose outer length is one
                                {'ds': [['u', [], 'int'], ['v', [2], 'bool']]}, {'ds': [['u', [2], 'str'], ['v', [], 'int']]}]
+# rectangular results whose entries are not floats: as nested lists or (case['np']) as numpy arrays of dtype int64 / bool / <U
+KINDS_ARR = [{'arr': [sh, lf]} for lf in ('int', 'bool', 'str') for sh in ([3], [1], [2, 3], [3, 2], [2, 1, 2])] + \
+            [{'tuple': [[[2], 'int'], [[], 'num'], [[2, 2], 'bool']]}, {'tuple': [[[3], 'str'], [[2], 'int']]}]
+KINDS = KINDS + KINDS_ARR
+
+
+def has_array(kind):
+    k = next(iter(kind))
+    return k == 'arr' or (k == 'tuple' and any(sh for sh, _ in kind[k]))
+
+
+def _set_kind(c, kind, rng):
+    c['kind'] = kind
+    c.pop('np', None)
+    if has_array(kind) and rng.random() < 0.6:
+        c['np'] = True           # the function returns numpy arrays, not nested lists
 
 
 def n_box(sw):
@@ -42,9 +59,10 @@ def _case(rng, heavy_ok=False, **kw):
     kind = rng.choice(KINDS)
     k = sweeps.n_outputs(kind)
     via = rng.choice(['combo_runner', 'combo_runner', 'case_runner'])
-    c = {'sweep': sw, 'kind': kind, 'strategy': sweeps.gen_strategy(rng, heavy_ok), 'via': via,
+    c = {'sweep': sw, 'kind': None, 'strategy': sweeps.gen_strategy(rng, heavy_ok), 'via': via,
          'split': bool(k) and rng.random() < 0.6, 'flat': via == 'case_runner' or rng.random() < 0.2,
          'spelling': rng.choice(['dict', 'dict_anyorder', 'tuple']) if via == 'case_runner' else rng.choice(['dict', 'dict_anyorder'])}
+    _set_kind(c, kind, rng)
     if via == 'case_runner' and len(sw['case_args']) == 1 and rng.random() < 0.6:
         c['spelling'] = 'bare'
     if 'ds' in kind:
@@ -126,9 +144,22 @@ def _sweep_cases(ctx):
     for kind in KINDS:
         for nca, nc in [(1, 1), (2, 2), (2, 3), (3, 2)]:
             c = _case(rng, n_case_args=nca, n_cases=nc)
-            c['kind'] = kind; k = sweeps.n_outputs(kind)
+            _set_kind(c, kind, rng); k = sweeps.n_outputs(kind)
+            c.pop('xr_form', None)
+            if 'ds' in kind:
+                c['strategy'] = {'name': 'seq'}
+                c['xr_form'] = rng.choice([True, True, 'dict'] + (['dataarray', 'dataarray'] if len(kind['ds']) == 1 else []))
             c['split'] = bool(k) and rng.random() < 0.5
-            if 'ds' in kind: c['strategy'] = {'name': 'seq'}
+            out.append(c)
+    # every non-float array kind as a numpy array, nested (so that un-requested slots exist), through combo_runner
+    for kind in KINDS_ARR:
+        for nca, nc in [(2, 2), (2, 3)]:
+            c = _case(rng, n_case_args=nca, n_cases=nc)
+            _set_kind(c, kind, rng); c['np'] = True
+            c.pop('xr_form', None)
+            c['via'] = 'combo_runner'; c['flat'] = False; c['spelling'] = 'dict'
+            c['split'] = bool(sweeps.n_outputs(kind)) and rng.random() < 0.5
+            if c['strategy']['name'] not in ('seq', 'shuffle_true', 'shuffle_int'): c['strategy'] = {'name': 'seq'}
             out.append(c)
     for i in range(700 if ctx.tier == 'quick' else 6000):
         out.append(_case(rng, heavy_ok=(i % 6 == 0)))
@@ -155,6 +186,12 @@ def _sweep_cases(ctx):
         ctx.count('kind', next(iter(c['kind']))); ctx.count('via', c['via']); ctx.count('strategy', c['strategy']['name'])
         ctx.count('n_case_args', len(c['sweep']['case_args'])); ctx.count('n_cases', len(c['sweep']['rows']))
         ctx.count('missing_slots', n_box(c['sweep']) - len(c['sweep']['rows']) > 0)
+        kd = c['kind']; kk = next(iter(kd))
+        if has_array(kd):
+            comps = [kd['arr']] if kk == 'arr' else [x for x in kd['tuple'] if x[0]]
+            for sh, lf in comps:
+                ctx.count('array_result', f"{'ndarray' if c.get('np') else 'list'}/{lf}/{len(sh)}d/"
+                                          f"{'flat' if c['flat'] else 'some slot missing' if n_box(c['sweep']) > len(c['sweep']['rows']) else 'full box'}")
     return out
 
 
@@ -174,6 +211,7 @@ def _rec(c):
     sw, kind = c['sweep'], c['kind']
     if 'ds' in kind:
         return sweeps.make_rec(sw, kind, as_xr=c.get('xr_form') or True, dims={n: ['i%d' % d for d in range(len(sh))] for n, sh, _ in kind['ds']})
+    if c.get('np'): return sweeps.make_rec(sw, kind, as_np=True)
     return sweeps.make_rec(sw, kind)
 
 
